@@ -740,10 +740,22 @@ func (p *Parser) parseIfExpression() ast.Expression {
 
 			p.nextToken()
 
+			// A chain of else-if is parsed recursively, so each
+			// link counts as one more level of nesting.
+			p.depth++
+			if p.depth > maxDepth {
+				p.depth--
+				msg := fmt.Sprintf("expression nested too deeply around %s", p.curToken.Position())
+				p.errors = append(p.errors, msg)
+				return nil
+			}
+			elseIf := p.parseIfExpression()
+			p.depth--
+
 			expression.Alternative = &ast.BlockStatement{
 				Statements: []ast.Statement{
 					&ast.ExpressionStatement{
-						Expression: p.parseIfExpression(),
+						Expression: elseIf,
 					},
 				},
 			}
